@@ -29,6 +29,9 @@ def demo_flags(demo):
 def build_demo(wt, demo, out, flags):
     srcs = "%s/src/containers/*.c %s/src/utilities/*.c %s/src/internal/*.c %s/src/internal/md5/*.c %s/src/ipc/*.c" % ((wt,)*5)
     opt = "" if "-O0" in flags else "-O1"
+    if "qlog" in open(demo).read():
+        srcs += " %s/src/extensions/qlog.c" % wt
+        flags = flags + ["-I%s/include/qlibc/extensions" % wt]
     cmd = "gcc -std=gnu99 %s -g -w -I%s/include/qlibc -I%s/include -I%s/src/internal %s %s %s -lpthread -lm -o %s" % (opt, wt, wt, wt, " ".join(flags), demo, srcs, out)
     return sh(cmd), cmd
 
